@@ -198,7 +198,9 @@ class Machine:
                 self._as_raw_time(self._reg.duration))
 
     def _color_matrix(self) -> None:
-        color = self._reg.get_color()
+        # Like the "default" register, the matrix always contains raw values:
+        # the units may be switched between two stages of a block.
+        color = self._as_raw_color(self._reg.get_color())
         mat = self._reg.matrix
         if mat is None:
             logging.error('"stage" used outside of a "begin" / "end" block.')
@@ -212,7 +214,6 @@ class Machine:
         light = self._get_named_light()
         if light is not None and isinstance(light, MatrixLight):
             matrix = self._reg.matrix
-            matrix = self._as_raw_matrix(matrix)
             matrix.find_replace(None, self._reg.default or [0, 0, 0, 0])
             duration = self._as_raw_time(self._reg.duration)
             light.set_matrix(matrix, duration)
